@@ -5,9 +5,9 @@ package main
 
 import (
 	"fmt"
-	"sort"
 	"go/token"
 	"go/types"
+	"sort"
 	"strings"
 
 	"golang.org/x/tools/go/ssa"
@@ -595,7 +595,7 @@ func (ex *Exec) havocItems(items []modItem, pre *State) {
 	// local cells written through pointers
 	for _, it := range items {
 		if it.level == -1 {
-			for k := range ex.st.cells {
+			for _, k := range sortedCells(ex.st.cells) {
 				if fmt.Sprintf("%p/%d", k.a, k.frame) == it.ref.S {
 					t := k.a.Type().(*types.Pointer).Elem()
 					// havoc the addressed part
@@ -645,7 +645,6 @@ func parsePath(s string) []int {
 	}
 	return out
 }
-
 
 // placeOf resolves an lvalue expression (x.f, x.f.g, *p) to the location it denotes.
 func (ex *Exec) placeOf(e Expr, st *State, env *Env) (PtrV, types.Type) {
